@@ -2570,6 +2570,10 @@ class SSHConnection(SSHPacketHandler, asyncio.Protocol):
             if inspect.isawaitable(result):
                 result = await cast(Awaitable[bool], result)
 
+            # The connection may have been closed while begin_auth() ran
+            if not self._owner:
+                return
+
             if not result:
                 await self.send_userauth_success()
                 return
